@@ -1,1 +1,126 @@
-(* Props/C09.v -- stub, to be filled in *)
+(* Props/C09.v -- iterative solvers: degenerate starts.  Property theorems only.
+   The CONVERGENCE half of C09 (Ok within O(n) iterations on SPD / strictly diagonally dominant systems,
+   agreement with the direct solution) is NOT proved here or anywhere: it is a statement about
+   floating-point Krylov iterations and is covered by the failing-input search of driver/c09.py only
+   (which found the Krylov-breakdown class recorded in KNOWN_FINDINGS.txt / findings/C09-krylov-breakdown.md).
+   The pre-repair BiCG and its refutation witness are in Legacy/C09Refuted.v (bicg_legacy_refuted). *)
+From Coq Require Import List Arith ZArith Floats.
+From OV Require Import Base.Panic Base.Arith Model.Vector Model.Matrix Model.Sparse Model.Iter Inst.QcInst Inst.FloatInst
+  Proofs.Iter Proofs.IterField Proofs.IterInst Proofs.IterRows.
+Import ListNotations.
+
+(* Over any field, with any function sqrt such that sqrt 0 = 0 (and |0| = 0), any matrix given by a
+   linear product, any size n, any budget, any tolerance with 0 <= tol, every solver (BiCG with either
+   error measure; after the repair d2fe329): a guess whose residual b - A x0 is the zero vector is
+   accepted at once -- Ok 0 -- and x0 is returned untouched.  This is exact_guess_ok0_{cg,bicg,bicgstab,qmr}
+   of DESIGN Appendix E as one statement over the solver tag. *)
+Theorem exact_guess_ok0 : forall (A : SArith), FieldLaws (SA A) -> SqrtLaws A ->
+  forall n (mulA mulAT : list (T (SA A)) -> res (list (T (SA A)))) sv b x0 max tol ax,
+  LinOp n mulA -> (forall itol, sv = BiCG itol -> itol = 1 \/ itol = 2) ->
+  length b = n -> length x0 = n -> mulA x0 = Ok ax -> zipw sub b ax = repeat zero n ->
+  leb zero tol = true ->
+  exists g, run mulA mulAT n n sv b x0 max tol = Ok (IOk 0, x0, g).
+Proof. intros A FL SL n mulA mulAT sv b x0 max tol ax LO Hit Hb Hx Eax Er Htol. exact (run_exact_guess FL SL n mulA mulAT LO sv b x0 max tol ax Hit Hb Hx Eax Er Htol). Qed.
+Check exact_guess_ok0 : forall (A : SArith), FieldLaws (SA A) -> SqrtLaws A ->
+  forall n (mulA mulAT : list (T (SA A)) -> res (list (T (SA A)))) sv b x0 max tol ax,
+  LinOp n mulA -> (forall itol, sv = BiCG itol -> itol = 1 \/ itol = 2) ->
+  length b = n -> length x0 = n -> mulA x0 = Ok ax -> zipw sub b ax = repeat zero n ->
+  leb zero tol = true ->
+  exists g, run mulA mulAT n n sv b x0 max tol = Ok (IOk 0, x0, g).
+Print Assumptions exact_guess_ok0.
+
+(* the same with the hypothesis LinOp discharged: EVERY square matrix of EVERY order, given as its list of rows
+   (rmul = the code's dot product of each row with the vector, rprod = the textbook product) *)
+Theorem exact_guess_ok0_rows : forall (A : SArith), FieldLaws (SA A) -> SqrtLaws A ->
+  forall n (rs : list (list (T (SA A)))) (mulAT : list (T (SA A)) -> res (list (T (SA A)))) sv b x0 max tol,
+  length rs = n -> Forall (fun r => length r = n) rs ->
+  (forall itol, sv = BiCG itol -> itol = 1 \/ itol = 2) ->
+  length b = n -> length x0 = n -> zipw sub b (rprod rs x0) = repeat zero n ->
+  leb zero tol = true ->
+  exists g, run (rmul rs) mulAT n n sv b x0 max tol = Ok (IOk 0, x0, g).
+Proof. intros A FL SL n rs mulAT sv b x0 max tol Hn Hrs Hit Hb Hx Er Htol. exact (run_exact_guess_rows FL SL n rs mulAT sv b x0 max tol Hn Hrs Hit Hb Hx Er Htol). Qed.
+Check exact_guess_ok0_rows : forall (A : SArith), FieldLaws (SA A) -> SqrtLaws A ->
+  forall n (rs : list (list (T (SA A)))) (mulAT : list (T (SA A)) -> res (list (T (SA A)))) sv b x0 max tol,
+  length rs = n -> Forall (fun r => length r = n) rs ->
+  (forall itol, sv = BiCG itol -> itol = 1 \/ itol = 2) ->
+  length b = n -> length x0 = n -> zipw sub b (rprod rs x0) = repeat zero n ->
+  leb zero tol = true ->
+  exists g, run (rmul rs) mulAT n n sv b x0 max tol = Ok (IOk 0, x0, g).
+Print Assumptions exact_guess_ok0_rows.
+
+(* non-vacuity: the identity matrix of order 2 over Qc, b = x0 = (5, -3) *)
+Example exact_guess_ok0_rows_nonvacuous :
+  Forall (fun r : list AQ => length r = 2) [[q 1 1; q 0 1]; [q 0 1; q 1 1]] /\
+  @zipw AQ sub [q 5 1; q (-3) 1] (@rprod AQ [[q 1 1; q 0 1]; [q 0 1; q 1 1]] [q 5 1; q (-3) 1]) = repeat zero 2.
+Proof.
+  split; [repeat constructor|].
+  cbn [rprod map dot_raw combine fold_left fst snd zipw repeat].
+  apply f_equal2; [apply Qcanon.Qc_is_canon; vm_compute; reflexivity|].
+  apply f_equal2; [apply Qcanon.Qc_is_canon; vm_compute; reflexivity | reflexivity].
+Qed.
+
+(* zero right-hand side with a zero guess: Ok 0, x stays the zero vector *)
+Theorem zero_rhs_zero_guess_ok0 : forall (A : SArith), FieldLaws (SA A) -> SqrtLaws A ->
+  forall n (mulA mulAT : list (T (SA A)) -> res (list (T (SA A)))) sv max tol,
+  LinOp n mulA -> (forall itol, sv = BiCG itol -> itol = 1 \/ itol = 2) ->
+  leb zero tol = true ->
+  exists g, run mulA mulAT n n sv (repeat zero n) (repeat zero n) max tol = Ok (IOk 0, repeat zero n, g).
+Proof. intros A FL SL n mulA mulAT sv max tol LO Hit Htol. exact (run_zero_rhs_zero_guess FL SL n mulA mulAT LO sv max tol Hit Htol). Qed.
+Check zero_rhs_zero_guess_ok0 : forall (A : SArith), FieldLaws (SA A) -> SqrtLaws A ->
+  forall n (mulA mulAT : list (T (SA A)) -> res (list (T (SA A)))) sv max tol,
+  LinOp n mulA -> (forall itol, sv = BiCG itol -> itol = 1 \/ itol = 2) ->
+  leb zero tol = true ->
+  exists g, run mulA mulAT n n sv (repeat zero n) (repeat zero n) max tol = Ok (IOk 0, repeat zero n, g).
+Print Assumptions zero_rhs_zero_guess_ok0.
+
+(* a zero budget never touches x (any arithmetic; also part of C08) -- "never corrupt a correct x" *)
+Theorem zero_budget_keeps_x : forall (A : SArith) (mulA mulAT : list (T (SA A)) -> res (list (T (SA A)))) rows cols
+    sv b x0 tol o x g,
+  run mulA mulAT rows cols sv b x0 0 tol = Ok (o, x, g) -> x = x0.
+Proof. intros A mulA mulAT rows cols sv b x0 tol o x g H. exact (run_zero_budget mulA mulAT rows cols sv b x0 tol o x g H). Qed.
+Check zero_budget_keeps_x : forall (A : SArith) (mulA mulAT : list (T (SA A)) -> res (list (T (SA A)))) rows cols
+    sv b x0 tol o x g,
+  run mulA mulAT rows cols sv b x0 0 tol = Ok (o, x, g) -> x = x0.
+Print Assumptions zero_budget_keeps_x.
+
+(* non-vacuity: Qc (AQ_FieldLaws, SAQ_SqrtLaws), the CSC matrix [[4,1],[1,3]] (exq_lin), the guess
+   x0 = (1/11, 7/11) and b := A x0 (= (1,2)): b - A x0 is the zero vector; tol = 0 is allowed *)
+Example exact_guess_ok0_nonvacuous :
+  LinOp 2 (@sp_mul AQ exq_s) /\ SqrtLaws SAQ /\
+  (exists b ax, @sp_mul AQ exq_s [q 1 11; q 7 11] = Ok ax /\ length b = 2 /\ @zipw AQ sub b ax = repeat zero 2) /\
+  @leb AQ zero zero = true.
+Proof.
+  split; [exact exq_lin|]. split; [exact SAQ_SqrtLaws|]. split; [|reflexivity].
+  rewrite exq_mul. match goal with |- exists b ax, Ok ?v = Ok ax /\ _ => exists v, v end.
+  split; [reflexivity|]. split; [reflexivity|].
+  exact (@zipw_sub_self SAQ AQ_FieldLaws _).
+Qed.
+
+(* ANY arithmetic, floats included: whenever the start-up residual r = b - A x0 that the code forms passes
+   the code's own test (norm2 r / ||b||' <= tol), every solver -- the repaired BiCG included -- returns Ok 0
+   at once and x0 is untouched.  This is the floating-point face of exact_guess_ok0 (in f64 an exact guess
+   gives r = 0, norm 0, 0/||b||' = 0 <= tol); the pre-repair BiCG violates it (Legacy/C09Refuted.v). *)
+Theorem startup_accepts : forall (A : SArith) (mulA mulAT : list (T (SA A)) -> res (list (T (SA A)))) rows cols
+    sv b x0 max tol ax r e,
+  (forall itol, sv = BiCG itol -> itol = 1 \/ itol = 2) ->
+  guards rows cols b x0 = Ok tt -> mulA x0 = Ok ax -> vsub b ax = Ok r ->
+  div (norm2 r) (nz (norm2 b)) = Ok e -> leb e tol = true ->
+  exists g, run mulA mulAT rows cols sv b x0 max tol = Ok (IOk 0, x0, g).
+Proof. intros A mulA mulAT rows cols sv b x0 max tol ax r e Hit Hg Eax Er Ee Ht. exact (run_startup_accepts mulA mulAT rows cols sv b x0 max tol ax r e Hit Hg Eax Er Ee Ht). Qed.
+Check startup_accepts : forall (A : SArith) (mulA mulAT : list (T (SA A)) -> res (list (T (SA A)))) rows cols
+    sv b x0 max tol ax r e,
+  (forall itol, sv = BiCG itol -> itol = 1 \/ itol = 2) ->
+  guards rows cols b x0 = Ok tt -> mulA x0 = Ok ax -> vsub b ax = Ok r ->
+  div (norm2 r) (nz (norm2 b)) = Ok e -> leb e tol = true ->
+  exists g, run mulA mulAT rows cols sv b x0 max tol = Ok (IOk 0, x0, g).
+Print Assumptions startup_accepts.
+
+(* non-vacuity in f64: diag(2,3), b = (2,3), exact guess x0 = (1,1) -- the witness of the repaired defect *)
+Definition exf_s : sparse AF := @mkS AF 2 2 2 [2; 3]%float [0; 1] [0; 1; 2].
+Example startup_accepts_nonvacuous :
+  @guards SAF 2 2 [2; 3]%float [1; 1]%float = Ok tt /\
+  @sp_mul AF exf_s [1; 1]%float = Ok [2; 3]%float /\
+  @vsub AF [2; 3]%float [2; 3]%float = Ok [0; 0]%float /\
+  @div AF (@norm2 SAF [0; 0]%float) (@nz SAF (@norm2 SAF [2; 3]%float)) = Ok 0%float /\
+  @leb AF 0%float (Z.ldexp 1%float (-26)%Z) = true.
+Proof. repeat split; vm_compute; reflexivity. Qed.
